@@ -136,6 +136,19 @@ def run(rep, props, replay=None):
                         except Exception:  # noqa: BLE001
                             pass
                         h.fit(d, method_smoothing=None)
+                        # ... after a fit on OTHER CURVES ON THE SAME GRID (other mean, other scale)
+                        h3 = UFPCA(n_components=ncomp, method=meth)
+                        h3.fit(fd.dense(x, np.round((X[::-1] * 0.5 + 3.0 + np.sin(x)[None, :]) * 1024) / 1024), method_smoothing=None)
+                        h3.fit(d, method_smoothing=None)
+                        if not (np.array_equal(np.asarray(h3.eigenvalues, float), np.asarray(fresh.eigenvalues, float), equal_nan=True)
+                                and np.array_equal(np.asarray(h3.eigenfunctions.values, float),
+                                                   np.asarray(fresh.eigenfunctions.values, float), equal_nan=True)
+                                and np.array_equal(np.asarray(h3.mean.values, float), np.asarray(fresh.mean.values, float), equal_nan=True)
+                                and np.array_equal(np.asarray(h3.covariance.values, float),
+                                                   np.asarray(fresh.covariance.values, float), equal_nan=True)):
+                            rep.violation(f"UFPCA({meth}, n_components={ncomp}): a fit on this dataset after a fit on other curves on the "
+                                          f"same grid differs from a fresh fit (the estimator keeps state from the earlier fit)",
+                                          {"grid": kind, "method": meth, "n_components": ncomp, "x": C.hexf(x), "X": C.hexf(X)})
                         # ... and the other way round: this dataset first, then the bigger one
                         h2 = UFPCA(n_components=ncomp, method=meth)
                         h2.fit(d, method_smoothing=None)
